@@ -214,6 +214,7 @@ func (s *SourceControl) runLaterIfActive(f func()) error {
 	select {
 	case s.queuedRequests <- f:
 	case <-s.ActiveSource.RunDoneChan():
+		verifPoint("rpc.sourceGone")
 		return fmt.Errorf("no source is active")
 	}
 	verifPoint("rpc.sent")
